@@ -94,6 +94,8 @@ class Dict(dictattr):
         return res
     
     def __add__(self, other):
+        if isinstance(other, dict) and type(other) not in (dict, Dict, dictattr): ## tree_update reads only these three classes as mappings; an instance of another dict subclass was a leaf without a key
+            other = dict(other)
         return tree_update(self, other)
     
     def do(self, function, *keys):
